@@ -43,12 +43,21 @@ def loop_nodes(L):
         if L["exit"] == "node":
             nodes.append({"k": "func", "name": "done", "params": ["i"], "defaults": {}, "outs": ["res"], "expr": "('done', i)"})
         return nodes
+    waitlast = form == "waitlast"  # last body node reads the FIRST chain value and waits for two signals emitted at different steps
     for j in range(k):
         last = j == k - 1
         src = "i" if j == 0 else f"t{j-1}"
+        if waitlast and last:
+            src = "t0"
         cur = "i" if j == 0 else f"{src}[2]"
         params = [src]
         n = {"k": "func", "name": f"b{j}", "defaults": {}}
+        if waitlast and j == 0:
+            n["emit"] = ["s0"]
+        if waitlast and j == k - 2:
+            n["emit"] = n.get("emit", []) + ["s1"]
+        if waitlast and last:
+            n["wait_for"] = ["s0", "s1"]
         if last:
             if L.get("step_input"):
                 params.append("step")
@@ -68,7 +77,7 @@ def loop_nodes(L):
         n["params"] = params
         nodes.append(n)
     stop = "done" if L["exit"] == "node" else "END"
-    g = {"name": "g", "defaults": {}, "default_open": True if form != "while" else bool(L.get("dopen", True))}
+    g = {"name": "g", "defaults": {}, "default_open": True if form not in ("while", "waitlast") else bool(L.get("dopen", True))}
     if form == "dowhile":
         g["params"] = ["go"]
         cond = "go"
@@ -182,7 +191,7 @@ def eval_loop(L):
     if e > 0:
         body(e)
         iterations += 1
-    if form == "while":
+    if form in ("while", "waitlast"):
         while state["i"] < limit:
             body()
             iterations += 1
